@@ -864,6 +864,11 @@ unsafe impl Sync for DynObject {}
 impl DynObject {
     impl_object_helpers!(pub &Self);
 
+    /// The address of the object behind this dyn object.
+    pub(crate) fn address(&self) -> usize {
+        self.ptr as usize
+    }
+
     /// Checks if this dyn object is the same as another.
     pub(crate) fn is_same_object(&self, other: &DynObject) -> bool {
         self.ptr == other.ptr && self.vtable == other.vtable
